@@ -91,7 +91,7 @@ def real_hash(v: dict, root: str) -> Optional[str]:
 
 SUB = r"""
 import sys, json, os
-sys.path.insert(0, "/repo/src")
+sys.path.insert(0, __import__("os").environ.get("VF_REPO", "/repo") + "/src")
 os.chdir(sys.argv[2])
 from pyrtma.parser import Parser
 import logging; logging.disable(logging.CRITICAL)
@@ -143,7 +143,7 @@ def outputs_hashes(v: dict, root: str, out: Optional[str] = None) -> Dict[str, O
 
 STAMP = r"""
 import sys, json, os, struct, importlib.util
-sys.path.insert(0, "/repo/src"); sys.path.insert(0, "/verif")
+sys.path.insert(0, __import__("os").environ.get("VF_REPO", "/repo") + "/src"); sys.path.insert(0, "/verif")
 import logging; logging.disable(logging.CRITICAL)
 from vf.readdrv import ScriptSock, _Select, _Time
 import pyrtma.client as C
